@@ -155,7 +155,66 @@ def oracles(ctx: Ctx):
             ctx.violation("failing-input", "oracle:client.roundtrip.real", {"unit": "client.roundtrip.real", "kind": kind, "input": enc(arg)[-1500:], "why": why},
                           key="roundtrip.real:" + why[:40])
             break
-    ctx.oracle_runs += n
+    # "at whatever wall-clock time the protect call happens": a clock that ADVANCES on every read and crosses an L0 / L1 / L2
+    # boundary during the protect call (a frozen test clock can never show two reads disagreeing)
+    tn = 0
+    for arg in ticking_cases(ctx):
+        tn += 1
+        out = dec(run_impl(impl_roundtrip_ticking, arg))
+        if isinstance(out, Err) or bytes(out) != TICK_DATA:
+            ctx.violation("failing-input", "oracle:client.roundtrip.ticking",
+                          {"unit": "client.roundtrip.ticking", "input": enc(arg), "replay_unit": "ticking",
+                           "why": f"protect while the clock moves from t0 by {arg[1]} ns per read (t0 = {arg[0]} ns): unprotect gives "
+                                  f"{out if isinstance(out, Err) else 'different bytes'} instead of the plaintext"},
+                          key="roundtrip.ticking")
+            break
+    ctx.oracle_runs += n + tn
+    ctx.extra["ticking_roundtrips"] = tn
+
+
+TICK_DATA = b"protected while the clock ticks"
+
+
+def impl_roundtrip_ticking(arg):
+    """real crypto, root key loaded, sync (flavour 0) or async (1): protect under a clock that advances `step` ns per read, then unprotect"""
+    import asyncio
+    import time
+
+    import dpapi_ng
+
+    t0, step, flavour = arg
+    reads = []
+
+    def clock():
+        reads.append(t0 + len(reads) * step)
+        return reads[-1]
+
+    cache = e2e.mk_cache([e2e.root_spec(4)])
+    real = time.time_ns
+    time.time_ns = clock
+    try:
+        if flavour:
+            blob = asyncio.run(dpapi_ng.async_ncrypt_protect_secret(TICK_DATA, SIDS[0], root_key_identifier=e2e.RKID, cache=cache))
+        else:
+            blob = dpapi_ng.ncrypt_protect_secret(TICK_DATA, SIDS[0], root_key_identifier=e2e.RKID, cache=cache)
+    finally:
+        time.time_ns = real
+    cache2 = e2e.mk_cache([e2e.root_spec(4)])
+    return dpapi_ng.ncrypt_unprotect_secret(blob, cache=cache2)
+
+
+def ticking_cases(ctx: Ctx):
+    from .c09 import D0, D1, D2, EPOCH, ns_of_filetime
+
+    cases = []
+    k = 0
+    for div, k0 in ((D0, EPOCH // D0 + 1), (D1, (EPOCH + 20000 * D2) // D1 + 1), (D2, (EPOCH + 20000 * D2) // D2 + 1)):
+        for kk in range(k0, k0 + ctx.n(3, 30)):
+            for before in (1, 5, 15, 25):
+                for step in (300, 1000, 2500):
+                    k += 1
+                    cases.append([ns_of_filetime(kk * div - before), step, k % 2])
+    return cases
 
 
 def search(ctx: Ctx):
